@@ -323,7 +323,11 @@ func (g *Gen) opAlphabet(o wOpts) []Blk {
 	ih3, _ := mh.Sum(dec3.Digest, mh.IDENTITY, -1)
 	b3 := Blk{cid.NewCidV1(cid.Raw, h3), d3}
 	b3i := Blk{cid.NewCidV1(cid.Raw, ih3), dec3.Digest} // equal digest, different hash code
-	big := g.bytes(int(o.mcs) + 1 + g.pick(20))
+	bigLen := o.mcs
+	if bigLen > 2048 {
+		bigLen = 2048 // a limit no CID of this alphabet exceeds
+	}
+	big := g.bytes(int(bigLen) + 1 + g.pick(20))
 	hb, _ := mh.Sum(big, mh.IDENTITY, -1)
 	b4 := Blk{cid.NewCidV1(cid.Raw, hb), big} // over-long CID
 	b5 := g.Block()
@@ -436,6 +440,11 @@ func famC04(g *Gen, o *Out, n int, thorough bool) {
 			// a small read-side section limit on a writing session (recorded finding: Put does not
 			// apply it, Get does)
 			wo.ms = uint64(40 + g.pick(120))
+		}
+		if c%5 == 3 {
+			// the CID size limit at the edges of the integer types it passes through ("no limit" is
+			// commonly spelled MaxUint64)
+			wo.mcs = []uint64{1 << 31, 1 << 32, 1<<63 - 1, 1 << 63, 1<<64 - 1}[(c/5)%5]
 		}
 		api := []string{"bs", "st"}[g.pick(2)]
 		alpha := g.opAlphabet(wo)
